@@ -288,6 +288,10 @@ def run(prop, seed, budget, ctx):
             evaluations += 1
             res = graphql.graphql_sync(sch, q)
             if res.errors or res.data != want: fail("execution-differs-from-serialize", info=info, query=q, errors=[str(e) for e in res.errors or []][:2], data=res.data, expected=want)
+    import corners7
+    cf_, cn_, cd_, ch_ = corners7.run_part("C19", seed, budget)
+    failures += cf_; distinct |= cd_; evaluations += cn_
+    for k_, v_ in ch_.items(): hist[k_] += v_
     return {"evaluations": evaluations, "distinct_nontrivial": len(distinct),
             "rule": "the resolve-info parameter at any position, object defaults of parameters under the aliaser; resolvers of a generic base inherited by non-generic subclasses (one and two levels); generated query resolvers: return types over primitives / Optional / List / enums / dataclasses nested to depth 3, one optional argument "
                     "(required int, defaulted int, Optional[int], List[int]); full-selection execution with valid and invalid arguments; plus families with a constrained NewType / input-object argument "
